@@ -305,9 +305,19 @@ def gen_case(world, tier, prop):
       elif r < 0.62:
         ops.append(copy_op())
       elif r < 0.70:
-        ops.append({'op': rng.choice(['set_tagged', 'select_replace']),
-                    'c': rng.randrange(len(fn_of)), 'tag': rng.choice(TAGS),
-                    'v': token() if rng.random() < 0.8 else {'list': [7]}})
+        kind_ = rng.choice(['set_tagged', 'select_replace'])
+        r_ = rng.random()
+        if r_ < 0.7:
+          v_ = token()
+        elif r_ < 0.85 or kind_ == 'set_tagged':
+          v_ = {'list': [7]}
+        else:
+          # a TaggedValue as the replacement: unpacked at every site (its tags
+          # are added, its value - here a mutable one - is stored)
+          v_ = {'tv': {'tags': [rng.choice(['U0', 'T2'])],
+                       'value': {'list': [7]} if rng.random() < 0.7 else token()}}
+        ops.append({'op': kind_, 'c': rng.randrange(len(fn_of)),
+                    'tag': rng.choice(TAGS), 'v': v_})
       elif r < 0.715:
         # the callable is swapped in place (for one that lacks a parameter, has
         # another one, or takes everything through **kwargs)
@@ -349,6 +359,7 @@ class Side:
     self.pairs = []   # (orig_root, copy_root, deep?) for identity checks
     self.sels = []    # kept selection objects (impl) / (root, tag) (model)
     self.suspend = [] # entered suspend_tracking() blocks (impl only)
+    self.last_broadcast = (None, False)   # (value, per-site copies?) of the last broadcast
     self.leafpool = {}   # opaque leaf objects that may be referenced repeatedly
     self.owned = {}      # tag collections owned by the caller and re-used
 
@@ -551,6 +562,12 @@ def model_apply(S_: Side, op):
         if (ts and matches(ts, T) and isinstance(key, int)
             and key >= m.sv.P and key - m.sv.P >= len(m.tail)):
           raise Skip()
+    # replace() hands every site its OWN deep copy of a mutable value (a list,
+    # a TaggedValue wrapping one); set_tagged stores the very object everywhere
+    per_site = k in ('select_replace', 'select_use') and (
+        isinstance(v, (list, dict)) or isinstance(v, M.MNode))
+    S_.last_broadcast = (v, per_site)
+    done = set()
     changed = True
     rounds = 0
     while changed:
@@ -560,14 +577,20 @@ def model_apply(S_: Side, op):
         for key, ts in list(m.tags.items()):
           if ts and matches(ts, T):
             cur = m.storage().get(key, M.NO_VALUE)
-            if cur is not v:
-              if k in ('select_replace', 'select_use') and isinstance(v, list):
-                raise Skip()  # replace() deep-copies per site: fresh lists
-              if isinstance(key, str) or key < m.sv.P:
-                m._store(key, v)
-              else:
-                _store_tail(m, key, v)
-              changed = True
+            if per_site:
+              if (id(m), key) in done:
+                continue
+              done.add((id(m), key))
+              val = mdeep(v, {})
+            else:
+              if cur is v:
+                continue
+              val = v
+            if isinstance(key, str) or key < m.sv.P:
+              m._store(key, val)
+            else:
+              _store_tail(m, key, val)
+            changed = True
         if changed:
           break
     return None
@@ -595,7 +618,7 @@ def model_apply(S_: Side, op):
 def _store_tail(m, key, v):
   j = key - m.sv.P
   if j < len(m.tail):
-    m.tail[j] = v
+    m._store(key, v)    # (expands a TaggedValue like every other store)
   else:
     raise Skip()   # tag on a *args position that holds no value: setting it
                    # would leave a hole; unspecified
@@ -751,16 +774,30 @@ def reconcile_unreachable(pre, iroot, mroot, op):
     return
   still = {id(n) for n in enum_nodes(mroot)}
   T = op['tag']
-  vcanon = C.canon(op['v']) if not isinstance(op['v'], dict) else None
-  for ni, nm in zip(pre_i, pre_m):
+  mkv = op.get('_mkv')
+  if isinstance(op['v'], dict):
+    if mkv is None:
+      return
+    eff = mkv()
+    if isinstance(eff, M.MNode) and eff.btype == 'TaggedValueCls':
+      if 'value' not in eff.named:
+        return
+      eff = eff.named['value']   # what an argument holds after the expansion
+    vcanon = C.canon(eff)
+  else:
+    vcanon = C.canon(op['v'])
+  pre_ids = op.get('_pre_ids') or [{}] * len(pre_i)
+  for (ni, nm), ids in zip(zip(pre_i, pre_m), pre_ids):
     if id(nm) in still:
       continue
-    for key, ts in nm.tags.items():
+    for key, ts in list(nm.tags.items()):
       if ts and matches(ts, T):
         got = ni.__arguments__.get(key, M.NO_VALUE)
-        if vcanon is not None and C.canon(got) == vcanon:
+        if id(got) == ids.get(key) and not isinstance(got, (int, str, float, type(None))):
+          continue   # still the object it held before: fiddle did not write here
+        if C.canon(got) == vcanon:
           try:
-            nm._store(key, op['v'])
+            nm._store(key, mkv() if mkv is not None else op['v'])
           except AssertionError:
             pass
 
@@ -870,6 +907,8 @@ def run(case):
       iroot_ = I.sels[op['s'] % len(I.sels)].cfg
       pre = (enum_nodes(iroot_), enum_nodes(mroot_), iroot_, mroot_, tag_)
     pre_named = [set(n.named) for n in pre[1]] if pre is not None else None
+    pre_ids = ([{k_: id(v_) for k_, v_ in n.__arguments__.items()} for n in pre[0]]
+               if pre is not None else None)
     # ---- model ----------------------------------------------------------
     try:
       mret = model_apply(Mo, op)
@@ -894,7 +933,10 @@ def run(case):
       raised = e
       del I.roots[n_roots:]
     if pre is not None and valid and raised is None:
-      reconcile_unreachable(pre[:2], pre[2], pre[3], dict(op, tag=pre[4]))
+      reconcile_unreachable(pre[:2], pre[2], pre[3],
+                            dict(op, tag=pre[4], _pre_ids=pre_ids, _mkv=lambda: (
+                                mdeep(Mo.last_broadcast[0], {}) if Mo.last_broadcast[1]
+                                else Mo.last_broadcast[0])))
       reconcile_kw_order(pre[:2], pre_named)
     after_i = C.canon(tuple(I.roots))
     after_m = C.canon(tuple(Mo.roots))
